@@ -25,12 +25,15 @@ pub struct Norm {
     pub phase: Option<u8>,
     /// ordered; a single value and a one-element array are the same thing on the wire
     pub attrs: Vec<(Vec<u8>, Vec<Vec<u8>>)>,
+    /// per attribute: is the value an array (`Value::Array`) rather than a string. Part of `==`
+    /// (lazy vs owned, whole-file vs per-line); against a *description* it is judged by `shape_diff`.
+    pub arrays: Vec<bool>,
 }
 
 impl std::fmt::Debug for Norm {
     fn fmt(&self, f: &mut std::fmt::Formatter<'_>) -> std::fmt::Result {
         let l = |b: &Vec<u8>| String::from_utf8_lossy(b).into_owned();
-        let attrs: Vec<(String, Vec<String>)> = self.attrs.iter().map(|(k, vs)| (l(k), vs.iter().map(l).collect())).collect();
+        let attrs: Vec<(String, &str, Vec<String>)> = self.attrs.iter().enumerate().map(|(i, (k, vs))| (l(k), if self.arrays.get(i).copied().unwrap_or(false) { "Array" } else { "String" }, vs.iter().map(l).collect())).collect();
         write!(
             f,
             "{{seqid: {:?}, source: {:?}, type: {:?}, start: {}, end: {}, score: {:?}, strand: {}, phase: {:?}, attributes: {:?}}}",
@@ -77,6 +80,29 @@ pub fn phase_of(c: u8) -> Phase {
 }
 
 impl Norm {
+    /// Shapes of a description: several values are an array; one value is a string unless the
+    /// generator decided to store it as a one-element array.
+    pub fn with_shapes(mut self, single_as_array: bool) -> Norm {
+        self.arrays = self.attrs.iter().map(|a| a.1.len() != 1 || single_as_array).collect();
+        self
+    }
+
+    /// `self` is the description, `got` what was read back (tags and values already equal). The only
+    /// tolerance is the format-inherent one: a described one-element array may come back as a
+    /// string, because the text cannot tell them apart. A described string must come back as a
+    /// string, a described array of k > 1 elements as an array.
+    pub fn shape_diff(&self, got: &Norm) -> Option<(&'static str, usize)> {
+        for (i, (d, g)) in self.arrays.iter().zip(&got.arrays).enumerate() {
+            if !*d && *g {
+                return Some(("string-read-back-as-array", i));
+            }
+            if *d && self.attrs[i].1.len() > 1 && !*g {
+                return Some(("array-read-back-as-string", i));
+            }
+        }
+        None
+    }
+
     /// Name of the first field that differs.
     pub fn diff(&self, o: &Norm) -> Option<&'static str> {
         if self.seqid != o.seqid {
@@ -112,6 +138,7 @@ impl Norm {
             score: r.score().map(score_bits),
             strand: strand_code(r.strand()),
             phase: r.phase().map(phase_code),
+            arrays: r.attributes().as_ref().iter().map(|(_, v)| matches!(v, ValueBuf::Array(_))).collect(),
             attrs: r
                 .attributes()
                 .as_ref()
@@ -131,10 +158,12 @@ impl Norm {
     /// by `RecordBuf`).
     pub fn of_feature_record<R: gff::feature::Record + ?Sized>(r: &R) -> io::Result<Norm> {
         let mut attrs = Vec::new();
+        let mut arrays = Vec::new();
         let a = r.attributes();
         for item in a.iter() {
             let (k, v) = item?;
             let vs = v.iter().map(|x| x.map(|s| s.to_vec())).collect::<io::Result<Vec<_>>>()?;
+            arrays.push(matches!(v, gff::feature::record::attributes::field::Value::Array(_)));
             attrs.push((k.to_vec(), vs));
         }
         Ok(Norm {
@@ -147,6 +176,7 @@ impl Norm {
             strand: strand_code(r.strand()?),
             phase: r.phase().transpose()?.map(phase_code),
             attrs,
+            arrays,
         })
     }
 }
